@@ -83,6 +83,7 @@ Definition wf_client (f : frame) : bool :=
         | None => false end
       else true
   | FOver _ _ (Some _) => false
+  | FTail => false
   | _ => true
   end.
 
@@ -142,6 +143,7 @@ Definition turn_step (s : tstate) (f : frame) (evs0 : list ev) : tstate :=
   let mk d ok why := {| t_discard := d; t_copy := started_copy; t_ok := ok; t_why := (if ok then 0 else why) |} in
   match f with
   | FOver _ _ (Some _) => s
+  | FTail => s
   | FOver _ _ None | FBad _ _ =>
       if t_discard s && negb (Byte.eqb t x53) then mk true (match evs with [] => true | _ => false end) 101
       else if is_ext t then
